@@ -878,7 +878,9 @@ int main(int argc, char** argv) {
                      k2[p] = k1[p] == 'z' ? 'y' : 'z';
                      k3[len / 2] = k1[len / 2] == 'A' ? 'B' : 'A';
                      if (k3 == k2) k3[0] = 'Q';
-                     std::string text = std::string(r.below(64), ' ') + "{\"" + k1 + "\":0,\"" + k2 + "\":1,\"" + k3 + "\":2}";
+                     // rep 4 and 5: a LONGER name with the same prefix comes first, and a proper prefix of the names is looked up
+                     bool prefix_family = rep >= 4;
+                     std::string text = std::string(r.below(64), ' ') + "{" + (prefix_family ? "\"" + k1 + "_ms\":9," : "") + "\"" + k1 + "\":0,\"" + k2 + "\":1,\"" + k3 + "\":2}";
                      c_lookalike.add();
                      vf::eval();
                      vf::witness(text);
@@ -886,7 +888,8 @@ int main(int argc, char** argv) {
                      ExactBuf b(text);
                      su::PoolDoc d;
                      d.Parse(b.p, b.n);
-                     if (d.HasParseError() || !d.IsObject() || d.Size() != 3) { vf::violation("lookalike-keys:valid-text-rejected-or-wrong-shape", vf::printable(text, 200)); continue; }
+                     size_t shift = prefix_family ? 1 : 0;
+                     if (d.HasParseError() || !d.IsObject() || d.Size() != 3 + shift) { vf::violation("lookalike-keys:valid-text-rejected-or-wrong-shape", vf::printable(text, 200)); continue; }
                      if (rep & 1) d.CreateMap(d.GetAllocator());
                      const std::string* ks[3] = {&k1, &k2, &k3};
                      for (int q = 0; q < 3; q++) {
@@ -896,9 +899,17 @@ int main(int argc, char** argv) {
                        auto it2 = d.FindMember(qb.get(), len);
                        long g1 = it1 == d.MemberEnd() ? -1 : (long)(it1 - d.MemberBegin()), g2 = it2 == d.MemberEnd() ? -1 : (long)(it2 - d.MemberBegin());
                        const su::PoolNode& v = static_cast<const su::PoolDoc&>(d)[StringView(qb.get(), len)];
+                       g1 -= (long)shift;
+                       g2 -= (long)shift;
                        if (g1 != q || g2 != q || !d.HasMember(StringView(qb.get(), len)) || !v.IsUint64() || v.GetUint64() != (uint64_t)q)
                          vf::violation(std::string("lookalike-keys:member-not-found-under-its-own-name:") + ((rep & 1) ? "map" : "linear"),
                                        "key length " + std::to_string(len) + ", keys differ at byte " + std::to_string(p) + ": FindMember(view)=" + std::to_string(g1) + " FindMember(ptr,len)=" + std::to_string(g2) + " want " + std::to_string(q));
+                     }
+                     if (prefix_family && len > 1) {  // a proper prefix of every name is not a member
+                       auto itp = d.FindMember(k1.data(), len - 1);
+                       auto itv = d.FindMember(StringView(k1.data(), len - 1));
+                       if (itp != d.MemberEnd() || itv != d.MemberEnd())
+                         vf::violation(std::string("lookalike-keys:prefix-of-a-name-found:") + ((rep & 1) ? "map" : "linear"), "key length " + std::to_string(len - 1) + " is a proper prefix of the member names");
                      }
                    }
                  }, false});
